@@ -25,12 +25,12 @@ def norm(v):
     return v
 
 
-def compare(acc, spec, cpu, w, row, rng, full):
+def compare(acc, spec, cpu, w, row, rng, full, cfgov=None):
     h = REG.get(row.name)
     if h is None:
         acc.cls('operands:no-reference-decode')
         return
-    cfg = diff.full_cfg(None)
+    cfg = diff.full_cfg(cfgov)
     for si in range(NSTATES):
         # processor state the decode may legitimately depend on: APSR.C, IT position (Thumb); everything else random
         flags = rng.getrandbits(4)
@@ -66,15 +66,15 @@ def compare(acc, spec, cpu, w, row, rng, full):
         if ref in ('unpred', 'skip'):
             acc.cls('operands:' + ref)
             if name.startswith('EXC:') and name not in ('EXC:UndefinedInstructionException', 'EXC:NotImplemented'):
-                acc.violation('%s:operands:%s:host-error' % (spec.prop, row.name), {'word': w, 'nbits': spec.nbits, 'cpsr': cpsr}, {'outcome': name})
+                acc.violation('%s:operands:%s:host-error' % (spec.prop, row.name), {'word': w, 'nbits': spec.nbits, 'cpsr': cpsr, 'cfg': cfgov}, {'outcome': name})
             continue
         if ref == 'undef':
             if not (name in dc.UND or name.startswith('UNPRED:')):
-                acc.violation('%s:operands:%s:should-be-undefined' % (spec.prop, row.name), {'word': w, 'nbits': spec.nbits, 'cpsr': cpsr}, {'outcome': name})
+                acc.violation('%s:operands:%s:should-be-undefined' % (spec.prop, row.name), {'word': w, 'nbits': spec.nbits, 'cpsr': cpsr, 'cfg': cfgov}, {'outcome': name})
             continue
         acc.cls('operands:compared')
         if obj is None:
-            acc.violation('%s:operands:%s:valid-encoding-rejected' % (spec.prop, row.name), {'word': w, 'nbits': spec.nbits, 'cpsr': cpsr},
+            acc.violation('%s:operands:%s:valid-encoding-rejected' % (spec.prop, row.name), {'word': w, 'nbits': spec.nbits, 'cpsr': cpsr, 'cfg': cfgov},
                           {'outcome': name, 'reference_operands': {k: norm(v) for k, v in ops.items()}})
             return
         bad = {}
@@ -97,6 +97,6 @@ def compare(acc, spec, cpu, w, row, rng, full):
                     continue
                 bad[k] = (want, got)
         if bad:
-            acc.violation('%s:operands:%s:%s' % (spec.prop, row.name, '+'.join(sorted(bad))), {'word': w, 'nbits': spec.nbits, 'cpsr': cpsr},
+            acc.violation('%s:operands:%s:%s' % (spec.prop, row.name, '+'.join(sorted(bad))), {'word': w, 'nbits': spec.nbits, 'cpsr': cpsr, 'cfg': cfgov},
                           {'operands(expected,observed)': bad, 'class': name})
             return
